@@ -209,3 +209,18 @@ PROPS.update({
         "trusted_base": MACH_TB,
     },
 })
+
+PROPS.update({
+    "C20": {
+        "ties": ["Shared", "ClientState", "Events", "Responder", "Confirm", "Recover", "TwoFactor"],
+        "streams": {"quick": [{"name": "c20", "n": 8, "kind": "race", "extra": ["-rounds", "2"]},
+                              {"name": "c20-log", "n": 8, "kind": "race", "extra": ["-rounds", "2"]}, MACH_QUICK],
+                    "thorough": [{"name": "c20", "n": 12, "kind": "race", "extra": ["-rounds", "4"], "seeds": 4},
+                                 {"name": "c20-log", "n": 12, "kind": "race", "extra": ["-rounds", "4"], "seeds": 4}, MACH_THOROUGH]},
+        "level": "proof",
+        "assumptions": ["the model is sequential: it proves that a request depends on and changes nothing but the configuration, clock, storage, the sender's client state and the append-only sinks, and that storage operations on different accounts commute; data races and interleavings inside a request are decided by the race harness (Go race detector over concurrent clients against one instance built from the shipped defaults, SMTP and log mailers, mail goroutines on), which samples schedules rather than enumerating them",
+                        "package-level variables of every package (the only places shared mutable state could live besides the instance) are pinned by the regenerated pkgVars_* tables",
+                        "the application's storer is goroutine-safe and its per-account operations are atomic"],
+        "trusted_base": ["Go race detector; net/smtp against a loopback SMTP server of the harness; goroutine-safe reference storer"],
+    },
+})
